@@ -266,7 +266,20 @@ def domain_file_text(i, flags):
         for sec in tree:
             if isinstance(sec, list) and sec and sec[0] == ":functions":
                 sec.extend(OPT_FUNCTIONS)
+    _set_constants(tree, file_constants(i))
     return G.pretty(tree)
+
+
+def file_constants(i):
+    """the agents' files declare overlapping subsets of the constants: every file k and c2, every second file also c3 (of k's
+    type, so that in the union the constants of one type are not next to each other)"""
+    return ["k", "-", "t1", "c2", "-", "t2"] + (["c3", "-", "t1"] if i % 2 else [])
+
+
+def _set_constants(tree, consts):
+    for sec in tree:
+        if isinstance(sec, list) and sec and sec[0] == ":constants":
+            sec[1:] = consts
 
 
 def vocabulary(domain):
@@ -354,6 +367,7 @@ def domain_problems(task, flags, combined, reparsed):
         for sec in tree:
             if isinstance(sec, list) and sec and sec[0] == ":functions":
                 sec.extend(OPT_FUNCTIONS)
+    _set_constants(tree, ["k", "-", "t1", "c2", "-", "t2"] + (["c3", "-", "t1"] if k > 1 else []))
     want = vocabulary(lib.parse_domain(G.pretty(tree)))
     if task["dummy"]:
         want["predicates"]["dummy-additional-predicate"] = []
